@@ -250,6 +250,7 @@ pub fn pool() -> Vec<(&'static str, String)> {
         ("pets", format!("{}{}", PETS, BUILTINS)),
         ("plain", PLAIN.to_string()),
         ("decoy", format!("{}{}", DECOY, BUILTINS)),
+        ("lonely", format!("{}{}", LONELY, BUILTINS)),
     ]
 }
 
@@ -278,6 +279,20 @@ type RealQuery { current: Subscription q: Query ev: Events }
 type RealMutation { doIt(n: Int): Int }
 type Events { created: String deleted: String plan: String }
 schema { query: RealQuery mutation: RealMutation subscription: Events }
+";
+
+/// an interface that implements another interface but has NO implementing object (legal), next to
+/// implemented ones, a union, and an object implementing two levels of interfaces
+pub const LONELY: &str = "
+interface Node { id: ID }
+interface Entity implements Node { id: ID name: String }
+interface Pet implements Node { id: ID }
+interface Named implements Node & Pet { id: ID name: String }
+type User implements Node { id: ID }
+type Dog implements Node & Pet { id: ID }
+type Cat implements Node & Pet & Named { id: ID name: String }
+union U = User | Dog
+type Query { node: Node entity: Entity pet: Pet named: Named u: U user: User }
 ";
 
 /// a schema that defines none of the names documents use (C15: "whether or not the schema
